@@ -53,12 +53,43 @@ CLAIMS = {
                   'read of exactly the resized range, full element coverage of fixed-size destinations, re-seating of Optional/Result/Variant, ClearEntries '
                   'of all declared table entries, size member of logical buffers. Equality with the fresh-object result as values is not decided.',
              ref='§4 C11'),
+ 'C09': dict(technique='compiler-evaluated trait table over a generated type catalogue (static_asserts) + documented-layout compatibility relation; must-fail witnesses',
+             text='clang evaluates IsFungible for every ordered pair of a generated catalogue (about 70 types over every type constructor the trait knows, '
+                  '~5000 pairs): reflexivity, symmetry and the documented pairs are read off, every accepted pair is checked against the documented wire '
+                  'layouts of both types, and Protocol<P> gating is witnessed by must-fail/must-compile snippets. Encoders emitting those layouts is C03/C04; '
+                  'length-prefix type and narrowing rules on the sequence encoders are repeated here. Per-value re-encoding is not decided.',
+             ref='§4 C09'),
  'C10': dict(technique='abstract interpretation of status locals (Untested/Ok/Failed) over every function instance; rules SD1-SD4',
              text='Every status-producing call site under include/nop (about 240 file:line:col sites) is a fault position; the interpreter proves per pattern '
                   'that the status is consumed, tested before the next I/O step, that the operation stops on failure and that the failure is returned '
                   'verbatim. Pattern-level verdicts do not depend on the instantiation, so nested containers, later elements, padding and every type '
                   'combination are covered. Prepare-failure => nothing written is SD2 on SerializerCommon::Write.',
              ref='§3 E3, §4 C10'),
+ 'C12': dict(technique='exhaustive abstract-state exploration (abstract execution over flag cells and dead/live storage cells) of Variant/Union',
+             text='All reachable abstract states of a three-alternative Variant with non-trivially destructible alternatives, every constructor and public '
+                  'operation (copy/move/element/EmptyVariant assignment, Become for every index in [-2,N+1], Visit, get) from every state, a second Variant in '
+                  'every state and self-aliasing: lifetime legality, index <=> live alternative, construct-only-while-empty ordering, copy/const rules, '
+                  'destructor, postconditions; plus tagged construction in Union::Become and member declaration order. Equality of copies as values is not decided.',
+             ref='§4 C12'),
+ 'C13': dict(technique='exhaustive abstract-state exploration of Result/Optional; abstract evaluation of the comparison operators; switch/enumerator inventory',
+             text='Reachable-state fixpoint of Result<E,T> and Optional<T> (T non-trivially destructible) over all constructors/operations/argument choices '
+                  '(value, every error code, second object in every reachable state incl. other instantiations, self): lifetime legality, accessor-visible state '
+                  '<=> live storage, ordering, copy/move/const rules, postconditions; Entry is shown to add nothing to Optional; every instantiated Optional '
+                  'comparison operator (also with Entry operands) is evaluated over all operand emptiness/order combinations against the total order; '
+                  'GetErrorMessage covers every enumerator.',
+             ref='§4 C13'),
+ 'C14': dict(technique='event-order and def-use rules on symbolic paths of the dispatch layer; narrowing scan; compile-fail witnesses',
+             text='Dispatch table (recursion flattened, 1/2/5 bindings): every binding tried, the matching binding dispatched, otherwise InvalidInterfaceMethod '
+                  'without touching the receiver; Helper::Dispatch: GetArgs, one Call, one SendReturn of its result; Call forwards pass-through then get<0..N-1>; '
+                  'sender/receiver primitives each perform exactly their transfer; Invoke sends its own selector; no selector is narrowed; static uniqueness and '
+                  'compatibility checks witnessed. Argument value equality reduces to C01.',
+             ref='§4 C14'),
+ 'C15': dict(technique='event order/def-use on symbolic paths of the handle encoder; abstract execution of UniqueHandle over all ownership scenarios; witnesses',
+             text='Handle writer: tag, exactly one PushHandle(value), exactly the returned reference; reader: tag validated, decoded reference resolved, errors via '
+                  '.error(); Size upper bound; bounded wrappers forward; handles inside table entries compile and are framed; every UniqueHandle member executed '
+                  'abstractly over empty/owning/second-handle/self scenarios with Policy::Close recorded (closed exactly once, never after release/move-away, '
+                  'unique ownership); copying deleted. Identity of external resources is the user channel\'s business.',
+             ref='§4 C15'),
  'C16': dict(technique='symbolic effect summaries (all paths, polynomial guards) of every BoundedReader/BoundedWriter member; inductive step on pos <= limit',
              text='Complete for the two classes: each of the 12 primitives is an inductive step on pos <= limit, with the byte count derived from the '
                   'signature. Guard (overflow-safe normal form), refusal category and effect-freeness, single delegation with the caller\'s arguments, '
